@@ -447,6 +447,8 @@ package lnwire
 //@   props C10
 //@   loop * havoc
 //@   bounds-safe
+//@   requires buf != nil
+//@   site call DBigSize: assert arg(3) == l && arg(2) == buf
 //@
 //@ func ValidateMusig2Nonce
 //@   props C10
